@@ -1,12 +1,64 @@
-(** C05: a Ret handler is invoked exactly once (Layer R) -- PARTIAL.
-    Proved: invoking a Ret consumes the value and produces its event first (RetInvoke / Notify), a slab wrapper
-    passes the message on to the wrapped notifier.  Not yet proved: linearity of Ret values across the whole
-    configuration (each Ret sits in exactly one place), which gives the trace-level statement; validated by
-    ./check C05; known findings F5/F7. *)
-From Coq Require Import ZArith NArith List.
+(** C05: a Ret handler is invoked exactly once (Layer R).
+    Proved for every program of the DSL, either deferrer kind and every amount of fuel: the monitor C05_ok
+    (coq/R/Mon.v: every Ret created once, invoked exactly once -- with the value sent, or with None where it is
+    dropped: with a discarded call, a killed Prep actor's held queue, a deleted timer closure, a closure dropped
+    with the Stakker, ... -- never twice, none missing at the end) holds of the trace of a terminated execution,
+    under two hypotheses that are decidable on the trace itself:
+    - the program gives distinct ids to its Rets ([NoDup (ret_ids t)]: the monitor identifies a Ret by its id;
+      the generators of the check always do, and the check evaluates the hypothesis on every trace);
+    - the run leaks no container ([no_container_leak t]: no `leak` report of a closure, an actor value or a
+      notifier): a leaked container keeps the Rets it captured for ever.  Leaks happen only in the classes of the
+      known findings F5 / F7, and in two situations outside any class (an actor storing a reference to itself;
+      inline deferrer: a closure deferred by a Drop handler after the last Stakker is gone) -- all refuted below
+      at model level (C05_ok is false there).
+    The proof (layerRproofs2: coq/R/Lin*.v, LinC05*.v, C05Proofs.v) rests on the linearity census of Lin.v.
+    The check ./check C05 also evaluates a second monitor, C05_calls_ok (the call behind a ret_to!-style Ret starts
+    exactly once unless its target terminates): validated on traces, not yet proved for all programs -- the
+    property as checked is therefore recorded as partial.  See docs/layer_r.md. *)
+From Coq Require Import ZArith NArith List Bool.
 Import ListNotations.
-From Stk Require Import Lib.U R.Syntax R.Rt R.Mon R.OneStep.
+From Stk Require Import Lib.U R.Syntax R.Rt R.Mon R.OneStep R.LinC05Core R.C05Proofs.
 
+Theorem C05_ret_exactly_once : forall (d : dkind) (p : list top) (fuel : nat) (t : list ev),
+  exec d fuel p = Done t -> NoDup (ret_ids t) -> no_container_leak t -> C05_ok t = true.
+Proof. exact C05_proved. Qed.
+Print Assumptions C05_ret_exactly_once.
+
+(* the same with the hypotheses as a boolean function of the trace (what the check evaluates) *)
+Theorem C05_ret_exactly_once_checked : forall (d : dkind) (p : list top) (fuel : nat) (t : list ev),
+  exec d fuel p = Done t -> hyp05 t = true -> C05_ok t = true.
+Proof. exact C05_checked. Qed.
+Print Assumptions C05_ret_exactly_once_checked.
+
+(* not vacuous: Rets sent, dropped with a discarded call to a Zombie, held in the Prep queue of a killed actor,
+   captured by a deleted timer closure, by a lazy closure dropped with the Stakker, ret_some_to dropped, ret_to sent *)
+Example C05_example :
+  exists t, exec DGlobal 2000 c05_prog = Done t /\ hyp05 t = true /\ C05_ok t = true /\
+            In (ERet 1 (Some 7%N)) t /\ In (ERet 3 None) t /\ In (ERet 4 None) t /\ In (ERet 5 None) t /\
+            In (ERet 6 None) t /\ In (ERet 7 None) t /\ In (ERet 8 (Some 3%N)) t /\ In (ETimerDel TMax 1 true) t.
+Proof. exact C05_nontrivial. Qed.
+
+(* the hypotheses cannot be dropped: known findings F5 and F7, the two unclassified leak situations, duplicate ids *)
+Example C05_F5_model :
+  exists t, exec DGlobal 2000 f5_prog = Done t /\ In (EModel M_PREPHELD 1) t /\ In (ELeak LK_CLO 1) t /\
+            ncl_b t = false /\ C05_ok t = false.
+Proof. exact C05_F5_refuted. Qed.
+Example C05_F7_model :
+  exists t, exec DGlobal 2000 f7_prog = Done t /\ In (EModel M_CHILDCYCLE 1) t /\ In (ELeak LK_VAL 1) t /\
+            ncl_b t = false /\ C05_ok t = false.
+Proof. exact C05_F7_refuted. Qed.
+Example C05_selfcycle_model :
+  exists t, exec DGlobal 2000 selfcycle_prog = Done t /\
+            existsb (fun e => match e with EModel c _ => N.eqb c M_PREPHELD || N.eqb c M_CHILDCYCLE | _ => false end) t = false /\
+            In (ELeak LK_VAL 1) t /\ ncl_b t = false /\ C05_ok t = false.
+Proof. exact C05_selfcycle_refuted. Qed.
+Example C05_inline_leftover_model :
+  exists t, exec DInline 2000 inline_left_prog = Done t /\
+            existsb (fun e => match e with EModel _ _ => true | _ => false end) t = false /\
+            In (ELeak LK_CLO 1) t /\ ncl_b t = false /\ C05_ok t = false.
+Proof. exact C05_inline_leftover_refuted. Qed.
+
+(* one-step fact kept from the earlier partial result *)
 Theorem C05_ret_once_partial : forall r k m s pre s',
   ret_invoke (Ret r k) m s = (pre, s') ->
   match k with
